@@ -3,19 +3,19 @@
 #  1. demo fails with the change   2. demo passes without it   3. existing tests of the packages pass with it
 export GOFLAGS=-mod=mod GOPROXY=off GOSUMDB=off GOTOOLCHAIN=local
 wt=$1; shift
-pkgs="$*"
+pkgs="$*"; TAGS=${SEED_TAGS:+-tags $SEED_TAGS}
 cd "$wt" || exit 2
 git apply --check -R SEEDED/patch.diff || { echo "patch not applied in worktree"; exit 2; }
 echo "== 1. demo WITH change (expect FAIL)"
-go test -count=1 -run 'Seeded' $pkgs > /tmp/seed/.c1.log 2>&1; rc1=$?
+go test $TAGS -count=1 -run 'Seeded' $pkgs > /tmp/seed/.c1.log 2>&1; rc1=$?
 tail -5 /tmp/seed/.c1.log
 git apply -R SEEDED/patch.diff
 echo "== 2. demo WITHOUT change (expect ok)"
-go test -count=1 -run 'Seeded' $pkgs > /tmp/seed/.c2.log 2>&1; rc2=$?
+go test $TAGS -count=1 -run 'Seeded' $pkgs > /tmp/seed/.c2.log 2>&1; rc2=$?
 tail -3 /tmp/seed/.c2.log
 git apply SEEDED/patch.diff
 echo "== 3. existing tests WITH change (expect ok)"
-go test -count=1 -skip 'Seeded' $pkgs > /tmp/seed/.c3.log 2>&1; rc3=$?
+go test $TAGS -count=1 -skip 'Seeded' $pkgs > /tmp/seed/.c3.log 2>&1; rc3=$?
 tail -5 /tmp/seed/.c3.log
 echo "RESULT demo_with=$rc1 demo_without=$rc2 existing_with=$rc3"
 [ $rc1 -ne 0 ] && [ $rc2 -eq 0 ] && [ $rc3 -eq 0 ] && echo CONFIRMED
